@@ -37,6 +37,9 @@ structure World where
   files : List (List Char × List (List Char))     -- path ↦ lines written
 deriving Repr, Inhabited
 
+/-- what a later `open(path).read()` sees: the most recent write to `path` (`none` = no such file) -/
+def World.read (w : World) (path : List Char) : Option (List (List Char)) := w.files.lookup path
+
 inductive Verbose where | none_ | level
 deriving DecidableEq, Repr
 
